@@ -117,8 +117,15 @@ func (c *Ctx) entryLocks() map[*ssa.Function]map[string]locks.Mode {
 					acc = here
 				} else {
 					for k := range acc {
-						if _, ok := here[k]; !ok {
+						hv, ok := here[k]
+						if !ok {
 							delete(acc, k)
+							continue
+						}
+						// held exclusively at one site and shared at another: shared is what the helper can count on
+						// (and the result does not depend on the order the call sites are visited in)
+						if hv == locks.Shared {
+							acc[k] = locks.Shared
 						}
 					}
 				}
@@ -131,7 +138,15 @@ func (c *Ctx) entryLocks() map[*ssa.Function]map[string]locks.Mode {
 				}
 			}
 			old := el[fn]
-			if _, wasTop := old[top]; wasTop || len(old) != len(acc) {
+			same := len(old) == len(acc)
+			if same {
+				for k, v := range acc {
+					if ov, ok := old[k]; !ok || ov != v {
+						same = false
+					}
+				}
+			}
+			if _, wasTop := old[top]; wasTop || !same {
 				el[fn] = acc
 				changed = true
 			}
